@@ -621,6 +621,4 @@ func init() {
 		}
 		return nil
 	})
-	pbt.Register(pbt.Sub[tplCase]{Name: "generate-template", Weight: 0.2, Gen: genTpl, Check: noShrink(checkTpl)})
-	pbt.RegisterEnum(pbt.Enum[tplCase]{Name: "generate-template-table", Exhaustive: true, Each: eachTpl, Check: noShrink(checkTpl)})
 }
